@@ -447,11 +447,14 @@ def check_division_guard(ctx):
     if quot is None:
         raise AnalysisError('Factor.__truediv__: the element-wise quotient of the non-scalar path was not found')
     qn, num, den, qexpr, qstmt = quot
-    den_t = T(den)
+    from ..normalise import Defs as _Defs, expand as _expand
+    den_t = T(_expand(den, _Defs(fi.body)))
     cleared = []          # (stmt, verdict): True = clears every empty-denominator cell, False = recognisably insufficient
     for s in ast.walk(ast.Module(body=tail, type_ignores=[])):
         if isinstance(s, ast.Assign) and isinstance(s.targets[0], ast.Subscript) and U(s.targets[0].value) == qn and T(s.value) in ('0', '0.0'):
             m = s.targets[0].slice
+            from ..normalise import Defs, expand
+            m = expand(m, Defs(fi.body), keep=(qn,))           # a mask kept in a local (`zero = tmp.values <= 0`)
             mt = T(m)
             if mt in ('%s<=0' % den_t, '%s==0' % den_t, '~(%s>0)' % den_t, '%s<=0.0' % den_t, '%s==0.0' % den_t):
                 cleared.append((s, True))
